@@ -57,6 +57,9 @@ func (p *Proof) IsValid(public Public) bool {
 	if p == nil {
 		return false
 	}
+	if p.Commitment == nil || p.Z == nil {
+		return false
+	}
 	if !arith.IsValidNatModN(public.Prover.N(), p.U, p.V) {
 		return false
 	}
